@@ -51,6 +51,9 @@ type c07Base struct {
 	files   map[string]string
 	dump    *core.Dump
 	locked  bool
+	mixed   bool // only the first config rule block is locked
+	// twoServers: servers prom (tag prod) and promb (tag dev); a comment naming one of them removes that server's share
+	twoServers bool
 }
 
 func c07Lint(c *core.Ctx, b *c07Base, files map[string]string) (*core.Dump, LintResult) {
@@ -63,6 +66,8 @@ func c07Lint(c *core.Ctx, b *c07Base, files map[string]string) (*core.Dump, Lint
 }
 
 // reporters that come (also) from rule{} config blocks of the scenario: with a locked block a rule-level comment must not silence them
+var scenarioFirstBlockReporters = map[string]bool{"promql/aggregate": true, "rule/label": true, "rule/name": true, "rule/reject": true, "rule/report": true}
+
 var scenarioConfigReporters = map[string]bool{"promql/aggregate": true, "rule/label": true, "rule/name": true, "rule/reject": true, "rule/report": true, "alerts/annotation": true, "rule/for": true, "promql/range_query": true, "query/cost": true, "alerts/count": true, "rule/link": true}
 
 func runC07(c *core.Ctx) int {
@@ -76,7 +81,7 @@ func runC07(c *core.Ctx) int {
 	}
 	var jobs []job
 	mkBase := func(variant int, online, crlf bool) *c07Base {
-		b := &c07Base{variant: variant, online: online, crlf: crlf, locked: variant%2 == 1}
+		b := &c07Base{variant: variant, online: online, crlf: crlf, locked: variant%16 < 8 && variant%2 == 1, mixed: variant%16 >= 8, twoServers: variant >= 16}
 		uri := ""
 		if online {
 			uri = srv.URL
@@ -101,12 +106,12 @@ func runC07(c *core.Ctx) int {
 		bases = append(bases, b)
 		jobs = append(jobs, job{b, cs})
 	} else if c.Quick() {
-		bases = append(bases, mkBase(2, false, false), mkBase(3, false, false), mkBase(0, false, true), mkBase(2, true, false))
+		bases = append(bases, mkBase(2, false, false), mkBase(3, false, false), mkBase(0, false, true), mkBase(2, true, false), mkBase(8, false, false), mkBase(16, true, false))
 	} else {
 		for v := 0; v < 6; v++ {
 			bases = append(bases, mkBase(v, false, false), mkBase(v, true, false))
 		}
-		bases = append(bases, mkBase(0, false, true), mkBase(3, true, true))
+		bases = append(bases, mkBase(0, false, true), mkBase(3, true, true), mkBase(8, false, false), mkBase(10, false, false), mkBase(8, true, false), mkBase(16, true, false), mkBase(18, true, false))
 	}
 	for _, b := range bases {
 		d, res := c07Lint(c, b, b.files)
@@ -185,6 +190,9 @@ func runC07(c *core.Ctx) int {
 							if b.variant%3 == 2 {
 								sp = "name(+tag)"
 							}
+						}
+						if b.twoServers {
+							sp = []string{"name", "name(prom)", "name(+tag)", "name(promb)", "name(+dev)"}[r.Intn(5)]
 						}
 					}
 					cs := c07Case{Variant: b.variant, Online: b.online, CRLF: b.crlf, File: p.file, RuleOrd: p.ord, RuleName: p.name, Reporter: p.reporter, Form: f, Spelling: sp, Placement: pl}
@@ -315,6 +323,31 @@ func c07Check(c *core.Ctx, b *c07Base, cs c07Case) (viol *core.Violation, inconc
 		target = cs.Reporter + "(prom)"
 	case "name(+tag)":
 		target = cs.Reporter + "(+prod)"
+	case "name(promb)":
+		target = cs.Reporter + "(promb)"
+	case "name(+dev)":
+		target = cs.Reporter + "(+dev)"
+	}
+	// with two servers a comment that names one of them is about the reports that server's check instance made
+	serverOf := ""
+	if b.twoServers {
+		switch cs.Spelling {
+		case "name(prom)", "name(+tag)":
+			serverOf = "`prom` Prometheus server"
+		case "name(promb)", "name(+dev)":
+			serverOf = "`promb` Prometheus server"
+		}
+	}
+	mentions := func(r core.DReport, what string) bool {
+		if strings.Contains(r.Details, what) {
+			return true
+		}
+		for _, dg := range r.Diagnostics {
+			if strings.Contains(dg.Message, what) {
+				return true
+			}
+		}
+		return false
 	}
 	var text string
 	switch cs.Form {
@@ -424,15 +457,27 @@ func c07Check(c *core.Ctx, b *c07Base, cs c07Case) (viol *core.Violation, inconc
 	ident := func(l int) int { return l }
 	fileLevel := strings.HasPrefix(cs.Form, "file/")
 	expired := strings.HasSuffix(cs.Form, "expired")
-	lockedSource := b.locked && scenarioConfigReporters[cs.Reporter]
+	// (mixed: only the first config block is locked; the checks of the blocks after it obey rule-level comments)
+	lockedSource := (b.locked && scenarioConfigReporters[cs.Reporter]) || (b.mixed && scenarioFirstBlockReporters[cs.Reporter])
 	inSlice := func(r core.DReport) bool {
 		if r.Path != cs.File || r.Reporter != cs.Reporter {
+			return false
+		}
+		if serverOf != "" && !mentions(r, serverOf) {
 			return false
 		}
 		if fileLevel {
 			return true
 		}
 		return r.RuleFirst == first
+	}
+	if serverOf != "" {
+		// only judged when every report of this reporter on the rule names its server
+		for _, r := range d.Reports {
+			if r.Path == cs.File && r.Reporter == cs.Reporter && (fileLevel || r.RuleFirst == first) && !mentions(r, "`prom` Prometheus server") && !mentions(r, "`promb` Prometheus server") {
+				return nil, "", false
+			}
+		}
 	}
 	removeSlice := !expired
 	dontCareTarget := false
